@@ -165,8 +165,9 @@ func (e *Env) tr(ex ast.Expr) TVal {
 		}
 		if x.Ty != nil {
 			if m, ok := x.Ty.Underlying().(*types.Map); ok {
-				mv, _ := e.x.so.mapComp(m)
-				return TVal{T: "(select (select " + e.st.get(mv) + " " + x.T + ") " + i.T + ")", Sort: e.x.so.sortOf(m.Elem()), Ty: m.Elem()}
+				// Go semantics: an absent key reads as the zero value
+				mv, mp := e.x.so.mapComp(m)
+				return TVal{T: "(ite (select (select " + e.st.get(mp) + " " + x.T + ") " + i.T + ") (select (select " + e.st.get(mv) + " " + x.T + ") " + i.T + ") " + e.x.so.zeroOf(m.Elem()) + ")", Sort: e.x.so.sortOf(m.Elem()), Ty: m.Elem()}
 			}
 		}
 		return e.fail("cannot index %s of sort %s", x.T, x.Sort)
